@@ -212,6 +212,85 @@ def twist_cases(ctx):
                     ctx.fail(cid, site, 'mismatch', dict(P, law='norm'), 'magnitude %r, expected %r' % (r[1], th))
 
 
+def multi_cases(ctx):
+    """normalisation of multi-valued objects is the normalisation of each value"""
+    import spatialmath as sm
+    import spatialmath.base as b
+    rev = lambda k: np.array([1.0 * k, 2.0, -0.5, 0.3 * k, -0.4, 0.5])
+    pri = lambda k: np.array([1.0 * k, 2.0, -0.5, 0.0, 0.0, 0.0])
+    for M in range(1, 7):
+        for pat in range(2 ** M if M <= 4 else 6):
+            kinds = [(pat >> j) & 1 for j in range(M)] if M <= 4 else [((pat + j) % 3 == 0) * 1 for j in range(M)]
+            vals = [pri(j + 1) if kd else rev(j + 1) for j, kd in enumerate(kinds)]
+            cid = 'C14/Twist3.unit/multi/M=%d/pattern=%s' % (M, ''.join(map(str, kinds)))
+            if ctx.want(cid):
+                ctx.case(cid, key=cid)
+                P = dict(M=M, pattern=''.join(map(str, kinds)), mode='multi')
+                ok, r = call(lambda: sm.Twist3([v.copy() for v in vals]).unit)
+                if not ok:
+                    ctx.fail(cid, 'Twist3.unit', 'raises:' + type(r).__name__, P, '%r' % (r,))
+                elif not hasattr(r, 'data') or len(r.data) != M:
+                    ctx.fail(cid, 'Twist3.unit', 'mismatch', dict(P, law='count'), 'expected %d values' % M)
+                else:
+                    for j, v in enumerate(vals):
+                        th = np.linalg.norm(v[:3]) if kinds[j] else np.linalg.norm(v[3:])
+                        if not np.all(np.isfinite(r.data[j])) or np.abs(r.data[j] - v / th).max() > T12 * 10:
+                            ctx.fail(cid, 'Twist3.unit', 'mismatch', dict(P, law='unit', j=j), 'value %d of the sequence is not the unit twist of value %d' % (j, j))
+            v2 = [np.r_[v[:2], v[5] if not kinds[j] else 0.0] for j, v in enumerate(vals)]
+            cid = 'C14/Twist2.unit/multi/M=%d/pattern=%s' % (M, ''.join(map(str, kinds)))
+            if ctx.want(cid):
+                ctx.case(cid, key=cid)
+                P = dict(M=M, pattern=''.join(map(str, kinds)), mode='multi')
+                ok, r = call(lambda: sm.Twist2([v.copy() for v in v2]).unit)
+                if not ok:
+                    ctx.fail(cid, 'Twist2.unit', 'raises:' + type(r).__name__, P, '%r' % (r,))
+                elif not hasattr(r, 'data') or len(r.data) != M:
+                    ctx.fail(cid, 'Twist2.unit', 'mismatch', dict(P, law='count'), 'expected %d values' % M)
+                else:
+                    for j, v in enumerate(v2):
+                        th = np.linalg.norm(v[:2]) if kinds[j] else abs(v[2])
+                        if not np.all(np.isfinite(r.data[j])) or np.abs(r.data[j] - v / th).max() > T12 * 10:
+                            ctx.fail(cid, 'Twist2.unit', 'mismatch', dict(P, law='unit', j=j), 'value %d of the sequence is not the unit twist of value %d' % (j, j))
+        # quaternions
+        qs = [np.array([1.0 + j, -2.0, 0.5 * j, 3.0]) * 10.0 ** (j - 2) for j in range(M)]
+        cid = 'C14/Quaternion.unit/multi/M=%d' % M
+        if ctx.want(cid):
+            ctx.case(cid, key=cid)
+            P = dict(M=M, mode='multi')
+            ok, r = call(lambda: sm.Quaternion([q.copy() for q in qs]).unit())
+            if not ok:
+                ctx.fail(cid, 'Quaternion.unit', 'raises:' + type(r).__name__, P, '%r' % (r,))
+            elif type(r) is not sm.UnitQuaternion or len(r.data) != M:
+                ctx.fail(cid, 'Quaternion.unit', 'mismatch', dict(P, law='count'), 'expected a UnitQuaternion with %d values, got %s[%s]' % (M, type(r).__name__, len(getattr(r, 'data', []))))
+            else:
+                for j, q in enumerate(qs):
+                    if np.abs(r.data[j] - q / np.linalg.norm(q)).max() > T12:
+                        ctx.fail(cid, 'Quaternion.unit', 'mismatch', dict(P, law='unit', j=j), 'value %d is not the normalised value %d' % (j, j))
+        # poses: norm() of M values
+        for cn, dim in (('SO3', 3), ('SE3', 3), ('SO2', 2), ('SE2', 2)):
+            C = getattr(sm, cn)
+            G = alph.gen_SO3('quick', 0) if cn == 'SO3' else alph.gen_SO2('quick', 0) if cn == 'SO2' else alph.gen_SE(dim, 'quick', 0)
+            Ms = []
+            for j in range(M):
+                X = G[(2 * j + 1) % len(G)][1].copy()
+                X[:dim, :dim] += 1e-6 * (j + 1) * NOISE[j % 4][:dim, :dim]
+                Ms.append(X)
+            cid = 'C14/%s.norm/multi/M=%d' % (cn, M)
+            if ctx.want(cid):
+                ctx.case(cid, key=cid)
+                P = dict(M=M, mode='multi', kind=cn)
+                f1 = b.trnorm if dim == 3 else b.trnorm2
+                ok, r = call(lambda: C([x.copy() for x in Ms], check=False).norm())
+                if not ok:
+                    ctx.fail(cid, cn + '.norm', 'raises:' + type(r).__name__, P, '%r' % (r,))
+                elif type(r) is not C or len(r.data) != M:
+                    ctx.fail(cid, cn + '.norm', 'mismatch', dict(P, law='count'), 'expected %d values' % M)
+                else:
+                    for j, x in enumerate(Ms):
+                        if ref.maxdiff(r.data[j], f1(x.copy())) > T12 * ref.tnorm(x) if cn[:2] == 'SE' else ref.maxdiff(r.data[j], f1(x.copy())) > T12:
+                            ctx.fail(cid, cn + '.norm', 'mismatch', dict(P, law='value', j=j), 'value %d is not the normalisation of value %d' % (j, j))
+
+
 def angle_letters(tier, seed):
     out = []
     for k in range(-8, 9):
@@ -286,7 +365,7 @@ def angdiff_cases(ctx):
 
 def shards(tier, seed):
     K = 4 if tier == 'quick' else 12
-    return [('m3', k, K) for k in range(K)] + [('m2', k, K) for k in range(K)] + [('vec',), ('twist',), ('angdiff',)]
+    return [('m3', k, K) for k in range(K)] + [('m2', k, K) for k in range(K)] + [('vec',), ('twist',), ('angdiff',), ('multi',)]
 
 
 def run_shard(ctx, shard):
@@ -299,5 +378,7 @@ def run_shard(ctx, shard):
         vector_cases(ctx)
     elif k == 'twist':
         twist_cases(ctx)
+    elif k == 'multi':
+        multi_cases(ctx)
     else:
         angdiff_cases(ctx)
